@@ -176,6 +176,40 @@ fn sig_hash(s: &str) -> String {
     format!("{:016x}", h)
 }
 
+/// Runs a trace in a fresh process and returns the slot creation map of the run (empty on death).
+fn replay_slot_origin(path: &Path, timeout: Duration) -> Vec<usize> {
+    let out = Command::new(exe()).arg("replay").arg(path).stdout(Stdio::piped()).stderr(Stdio::null()).spawn();
+    let Ok(mut child) = out else { return vec![] };
+    let start = Instant::now();
+    loop {
+        match child.try_wait() {
+            Ok(Some(_)) => break,
+            Ok(None) => {
+                if start.elapsed() > timeout {
+                    let _ = child.kill();
+                    let _ = child.wait();
+                    return vec![];
+                }
+                std::thread::sleep(Duration::from_millis(2));
+            }
+            Err(_) => return vec![],
+        }
+    }
+    let mut text = String::new();
+    if let Some(mut o) = child.stdout.take() {
+        use std::io::Read;
+        let _ = o.read_to_string(&mut text);
+    }
+    for l in text.lines() {
+        if let Some(s) = l.strip_prefix("END ") {
+            if let Ok(r) = serde_json::from_str::<RunResult>(s) {
+                return r.slot_origin;
+            }
+        }
+    }
+    vec![]
+}
+
 /// Runs a trace file in a fresh process. Returns (signature of violation / death class, outcome hash).
 fn replay_subprocess(path: &Path, timeout: Duration) -> (Option<String>, u64) {
     let mut child = match Command::new(exe()).arg("replay").arg(path).stdout(Stdio::piped()).stderr(Stdio::piped()).spawn() {
@@ -281,6 +315,54 @@ fn minimise(prop: &str, trace: &Trace, sig: &str, tmp: &Path, timeout: Duration,
         }
         if chunk > 1 {
             chunk /= 2;
+        }
+    }
+    // slot-aware pass: remove an event that creates stored objects and renumber the slot
+    // references of later events (plain removal shifts them onto other objects)
+    for _round in 0..12 {
+        if tries >= budget {
+            break;
+        }
+        write_trace(tmp, &best);
+        let origin = replay_slot_origin(tmp, timeout);
+        if origin.is_empty() {
+            break;
+        }
+        let mut progress = false;
+        let mut creators: Vec<usize> = origin.clone();
+        creators.dedup();
+        for e in creators.into_iter().rev() {
+            if tries >= budget || e >= best.events.len() {
+                continue;
+            }
+            let first = origin.iter().position(|x| *x == e).unwrap_or(0);
+            let count = origin.iter().filter(|x| **x == e).count();
+            let map = |s: usize| -> Option<usize> {
+                if s < first {
+                    Some(s)
+                } else if s < first + count {
+                    None
+                } else {
+                    Some(s - count)
+                }
+            };
+            let mut cand = best.clone();
+            cand.events.remove(e);
+            let mut kept = vec![];
+            for (i, mut ev) in cand.events.into_iter().enumerate() {
+                if i < e || crate::run::remap_slots(&mut ev, &map) {
+                    kept.push(ev);
+                }
+            }
+            cand.events = kept;
+            if !cand.events.is_empty() && test(&cand, &mut tries) {
+                best = cand;
+                progress = true;
+                break; // slot numbering changed: recompute the origin map
+            }
+        }
+        if !progress {
+            break;
         }
     }
     // fewer users / encryptors
